@@ -61,6 +61,7 @@ def run_slice(ctx, path, req, limit, serial, cn, pos, out, cli, split):
 def run_case(ctx):
     src = ctx.src
     common.draw_env(ctx)
+    common.prelude(ctx)
     m = mand.designed_world(src)
     path, _ = common.materialise(ctx, m)
     cn = src.draw("normal", 0, 2)
